@@ -1,6 +1,6 @@
 import FlytModel.Generated.IR
 import FlytModel.Expected.IR
-/-! The translation of `Flow_Prep` from the CURRENT source is, term for term, the IR the refinement theorems are about. -/
+/-! The translation of `Flow_Prep` from the CURRENT source is, term for term, the expected IR. -/
 namespace Flyt.Tie
 theorem Flow_Prep : Flyt.Generated.IR.Flow_Prep = Flyt.Expected.IR.Flow_Prep := rfl
 end Flyt.Tie
